@@ -96,8 +96,11 @@ impl SparqlTranslator {
 
             // Apply HAVING if present
             if let Some(having) = &select.solution_modifiers.having {
+                // The filter runs on the aggregate's output, where an aggregate is a column
+                // named by its alias: refer to that column instead of re-evaluating it.
+                let having = Self::having_over_aliases(having, &select.projection)?;
                 plan = LogicalOperator::Filter(FilterOp {
-                    predicate: self.translate_expression(having)?,
+                    predicate: self.translate_expression(&having)?,
                     input: Box::new(plan),
                 });
             }
@@ -1031,6 +1034,51 @@ impl SparqlTranslator {
         }
 
         Ok((aggregates, group_by))
+    }
+
+    /// Rewrites the aggregates of a HAVING expression into the variables they are
+    /// projected as (`HAVING (COUNT(?o) > 1)` with `(COUNT(?o) AS ?c)` becomes `?c > 1`).
+    fn having_over_aliases(
+        expr: &ast::Expression,
+        projection: &ast::Projection,
+    ) -> Result<ast::Expression> {
+        Ok(match expr {
+            ast::Expression::Aggregate(_) => {
+                let alias = match projection {
+                    ast::Projection::Variables(vars) => vars
+                        .iter()
+                        .find(|pv| &pv.expression == expr)
+                        .and_then(|pv| pv.alias.clone()),
+                    ast::Projection::Wildcard => None,
+                };
+                match alias {
+                    Some(alias) => ast::Expression::Variable(alias),
+                    None => {
+                        return Err(Error::Internal(
+                            "HAVING over an aggregate that is not projected is not supported"
+                                .to_string(),
+                        ));
+                    }
+                }
+            }
+            ast::Expression::Binary {
+                left,
+                operator,
+                right,
+            } => ast::Expression::Binary {
+                left: Box::new(Self::having_over_aliases(left, projection)?),
+                operator: *operator,
+                right: Box::new(Self::having_over_aliases(right, projection)?),
+            },
+            ast::Expression::Unary { operator, operand } => ast::Expression::Unary {
+                operator: *operator,
+                operand: Box::new(Self::having_over_aliases(operand, projection)?),
+            },
+            ast::Expression::Bracketed(inner) => ast::Expression::Bracketed(Box::new(
+                Self::having_over_aliases(inner, projection)?,
+            )),
+            other => other.clone(),
+        })
     }
 
     fn is_aggregate_expression(&self, expr: &ast::Expression) -> bool {
